@@ -92,18 +92,22 @@ TEXT = {
          'to all client APIs in a synctest bubble. Oracle: no panic, no deadlock, success XOR coded non-zero error, status-only mapping as a metamorphic '
          'relation, case-insensitive trailing-metadata lookups for generated key casings.',
  'design_ref': 'DESIGN.md §5 C06',
- 'note': 'Trusted: memnet.Script; refwire (to build the valid starting points and to decide whether a body carries a protocol-level error). A native '
-         "coverage-guided fuzz target is not part of the registered commands (Go's fuzzer cannot be seeded).",
+ 'note': 'Trusted: memnet.Script; refwire (to build the valid starting points and to decide whether a body carries a protocol-level error). The '
+         'thorough command additionally runs a native coverage-guided campaign (go test -fuzz FuzzHostile, 90 s on all cores, fresh corpus seeded with '
+         "1500 examples of the structured generator) over byte-level responses judged by the same oracle; Go's fuzzer cannot be seeded, so the saved "
+         'failing input / the JSON case written by the oracle is the reproducible unit.',
  'technique': 'property-based testing (rapid): structured mutation of valid responses + hostile constant catalogues; safety oracle, metamorphic status→code '
-              'relation, case-insensitivity relation'},
+              'relation, case-insensitivity relation; plus native coverage-guided fuzzing (go test -fuzz) with the same oracle in the thorough tier'},
     'C07': {'text': 'Exploration: valid reference requests with exactly one fault of nine classes applied at a chosen message position, plus arbitrary requests; served '
          'synchronously in a bubble. The response must be strictly well-formed for the protocol selected by the Content-Type according to the independent '
          'reference decoder (or a bare 405/415/505), user code runs at most once and only ever sees intact sent messages, and each fault class maps to its '
          'documented code, never to success.',
  'design_ref': 'DESIGN.md §5 C07',
- 'note': 'Trusted: refwire as strict response parser and as builder of the valid starting points; memnet.Serve.',
+ 'note': 'Trusted: refwire as strict response parser and as builder of the valid starting points; memnet.Serve. The thorough command additionally runs a '
+         'native coverage-guided campaign (go test -fuzz FuzzHostile, 90 s, all cores, fresh corpus seeded from the structured generator) over byte-level '
+         "requests judged by the arbitrary-request part of the oracle; Go's fuzzer cannot be seeded.",
  'technique': 'property-based testing (rapid): single-fault injection into valid requests with a per-class code oracle; strict reference decoder as '
-              'well-formedness oracle; prefix rule for delivered messages'},
+              'well-formedness oracle; prefix rule for delivered messages; plus native coverage-guided fuzzing (go test -fuzz) in the thorough tier'},
     'C05': {'text': 'Exploration by differential testing against an independent codec: (1) generated handler programs are driven by reference-client requests in every '
          'legal variation and the raw response must be strictly decodable to exactly what the application supplied (incl. the structural clauses: HTTP 200 + '
          "exactly one grpc-status in the right place, exactly one final end-of-stream envelope, JSON error under the code's status, Content-Type echo, "
